@@ -74,3 +74,22 @@ Theorem C07_sender_identity_in_messages :
     get_str m' "channel" = get_str m "channel" /\
     get_num m' "length" = N.of_nat (Datatypes.length q) /\ h' <> h.
 Proof. exact C08_message_attribution. Qed.
+
+(* ---- exclusive registration under real concurrency (Model/Exclusive.v; proofs in Proofs/ExclusiveProofs.v) ---- *)
+From NW Require Import Model.Exclusive Proofs.ExclusiveProofs Gen.LockLint.
+Local Open Scope nat_scope.
+
+Theorem C07_at_most_one_thread_wins_a_name : forall n sched, winners (xrun true (xinit n) sched) <= 1.
+Proof. exact atomic_at_most_one_winner. Qed.
+
+Theorem C07_exactly_one_wins_once_all_have_tried : forall n sched,
+  1 <= n -> forallb is_done (threads (xrun true (xinit n) sched)) = true ->
+  winners (xrun true (xinit n) sched) = 1.
+Proof. exact atomic_exactly_one_when_all_done. Qed.
+
+Theorem C07_check_then_insert_two_winners_refuted : winners (xrun false (xinit 2) [0; 1; 0; 1]) = 2.
+Proof. exact split_two_winners_refuted. Qed.
+
+(* the current source tests and inserts through one entry guard (translator/locklint.py) *)
+Theorem C07_source_exclusive_check_under_entry_guard : NW.Gen.LockLint.exclusive_check_under_entry_guard = true.
+Proof. reflexivity. Qed.
